@@ -277,6 +277,23 @@ def check(prog, rep, tier):
                         rep.bad("C11.path-provenance", f"{CTX}.{fname}", f"{what}({nshow(lossy[0] if lossy else basename[0])})",
                                 f"{what} receives {nshow(a)}: the directory part of the resolved path is dropped, so the file is looked up relative to the "
                                 "current working directory (reopen/export fail or hit another file after chdir)", e.where())
+                    elif not resolved and what == "open" and fname == "export" and len(e.args) > 1 and e.args[1][0] == "c" and isinstance(e.args[1][1], str) \
+                            and any(ch in e.args[1][1] for ch in "wax+"):
+                        # a destination opened for writing: safe only when it cannot be the backing file under another spelling
+                        fpth = ("f", SELF, "_filepath", 0)
+                        guarded = False
+                        for c in conds_at(p, e):
+                            c = strip_epochs(c)
+                            if c[0] == "cmp" and c[1] == "!=" and fpth in (c[2], c[3]):
+                                other = c[3] if c[2] == fpth else c[2]
+                                if any((n[0] == "call" and n[1][0] == "m" and n[1][2] == "resolve") or (n[0] == "ret" and n[1].endswith("resolve_path")) for n in walk(other)):
+                                    guarded = True
+                        if guarded:
+                            rep.ok("C11.path-provenance", f"{CTX}.{fname}: destination opened for writing under a resolved own-file guard")
+                        else:
+                            rep.bad("C11.path-provenance", f"{CTX}.{fname}", f"open({nshow(a)}, {e.args[1][1]!r})",
+                                    f"export opens {nshow(a)} for writing without a guard comparing the backing path with the RESOLVED destination: another spelling of the "
+                                    "backing file's own name truncates the live, mapped file (copyfile refused that case with SameFileError)", e.where())
                     elif not resolved:
                         rep.bad("C11.path-provenance", f"{CTX}.{fname}", f"{what}({nshow(a)})", f"{what} receives {nshow(a)}, which is not the resolved path", e.where())
                     else:
